@@ -26,6 +26,7 @@ type crashCfg struct {
 	skipFns    map[string]string                    // function name -> reason: not reachable from untrusted input (local API)
 	fatalIsOK  map[string]string                    // "<function>|<construct>" for panic/log.Fatal sites excepted with reason
 	assertOK   func(*ssa.TypeAssert) (bool, string) // property-specific discharge of unchecked assertions
+	sliceOK    func(*ssa.Slice) (bool, string)      // property-specific discharge of slice bounds the fact engine leaves open
 	noCompiler bool                                 // engine fixture: every bounds site goes to the fact engine
 }
 
@@ -296,6 +297,11 @@ func crashInventory(c *Ctx, r *Report, cfg crashCfg) crashStats {
 					if okLow && okOrder && okHigh {
 						st.FactProof++
 						return true, "fact engine: 0 <= low <= high <= len established by dominating guards / post-conditions"
+					}
+					if cfg.sliceOK != nil {
+						if ok, why := cfg.sliceOK(x); ok {
+							return true, why
+						}
 					}
 					return false, fmt.Sprintf("slice bounds not established (low>=0:%v low<=high:%v high<=len:%v)", okLow, okOrder, okHigh)
 				}
